@@ -1,6 +1,6 @@
 SPECIFICATION TSpec
 CONSTANTS
-  Actors = {"S", "A", "B"}
+  Actors = {"S", "A", "B", "M"}
   NoA = "none"
   SupOf <- TrSupOf
   MaxMsgs <- TrMax
@@ -10,6 +10,7 @@ CONSTANTS
   EnvOps <- TrEnvOps
   KillCarriesState = TRUE
   Once = FALSE
+  MonPairs <- TrMonPairs
   Undecodable = {}
 CONSTRAINT Progress
 INVARIANTS
